@@ -926,10 +926,14 @@ def run_for_property(prop, src, tier):
 
 
 def replay(d):
-    print("MIR->SMT counterexample (model of the negated obligation):")
+    print("MIR->SMT counterexample as stored (model of the negated obligation, native replay at the time):")
     for f in d.get("failures", []):
         print(" ", f["obligation"], "-", f["describe"])
         print("  ", (f.get("model") or "").replace("\n", " ")[:300])
+        rp = f.get("replay") or f.get("native_replay")
+        if rp:
+            import json as _j
+            print("   native replay:", _j.dumps(rp)[:500])
     return 1
 
 
